@@ -274,7 +274,10 @@ def _pool_child(fn, item, started, limit):
     Python signal handlers), so the hard limit has to come from outside the interpreter."""
     import signal
     iid = item.get("id") if isinstance(item, dict) else str(item)
-    started[iid] = time.time()
+    try:
+        started[iid] = time.time()
+    except Exception:  # noqa  (a manager hiccup must not cost the item: without a start record it is simply re-submitted if the pool breaks)
+        pass
     signal.signal(signal.SIGALRM, signal.SIG_DFL)
     signal.setitimer(signal.ITIMER_REAL, limit)
     try:
@@ -302,6 +305,7 @@ def pmap(fn, items, workers=None, hard_s=None):
     started = mgr.dict()
     remaining = list(items)
     results = []
+    crashes = {}
     for attempt in range(6):
         if not remaining:
             break
@@ -316,8 +320,11 @@ def pmap(fn, items, workers=None, hard_s=None):
                 except BrokenProcessPool:
                     continue
                 except Exception as e:  # noqa
-                    results.append(dict(id=iid_of(it), status="harness_error", reason="worker crashed: %s" % e, solver_s=0, subs=[]))
-                    done.add(iid_of(it))
+                    # an exception of the pool machinery itself (fn reports its own failures in its result): retried once before it is reported
+                    crashes[iid_of(it)] = crashes.get(iid_of(it), 0) + 1
+                    if crashes[iid_of(it)] >= 2:
+                        results.append(dict(id=iid_of(it), status="harness_error", reason="worker crashed: %s" % e, solver_s=0, subs=[]))
+                        done.add(iid_of(it))
         nxt = []
         now = time.time()
         for it in remaining:
